@@ -120,6 +120,8 @@ class C16Oracle(Oracle):
             o = run.world.heap.get(hh)
             if not isinstance(o, audio.Wav) or o is out.recv or o is out.result:
                 continue
+            if hh in getattr(self, "deferred", ()):
+                continue
             if len(m.s) <= 2000 and dec_samples(o.frames, m.width) != m.s:
                 self.fail(out.op.name, f"bystander-samples-changed/w{m.width}", {"handle": hh})
             if not math.isclose(o.duration, len(m.s) / m.rate, rel_tol=1e-12, abs_tol=0.0):
@@ -146,6 +148,16 @@ class C16Oracle(Oracle):
             self.m[step["out"]] = m
             self._check_buffer(run, out, out.result, m, how)
             return
+        if name == "Wav.from":
+            src = self.m.get(out.step["a"][0]["$h"])
+            if src is None:
+                return
+            if not out.ok:
+                self.fail(name, "ctor-raised", {"exc": repr(out.exc)})
+            m = src.copy()
+            self.m[step["out"]] = m
+            self._check_buffer(run, out, out.result, m, how)
+            return
         if name == "Wav.like":
             src = self.m.get(out.step["a"][1]["$h"])
             if src is None:
@@ -160,6 +172,7 @@ class C16Oracle(Oracle):
             m = self.m.get(h)
             if m is None:
                 return
+            getattr(self, "deferred", set()).discard(h)
             if not out.ok and getattr(self, "prev_samples", None) is not None:
                 # a time beyond the end of the recording: the statement only covers [0, duration], so
                 # rejecting the call is as acceptable as clamping to the end - but then nothing may change
@@ -208,6 +221,12 @@ class C16Oracle(Oracle):
                 self.fail(name, f"raised-{type(out.exc).__name__}/w{src.width}", {"exc": repr(out.exc)})
             r = out.result
             self.m[step["out"]] = src.copy()
+            if step.get("defer"):
+                # do not look at the opened object yet: its first inspection happens at a later step, after
+                # the file may have been rewritten (an object that loads lazily from the path would then differ)
+                self.deferred = getattr(self, "deferred", set())
+                self.deferred.add(step["out"])
+                return
             self._check_buffer(run, out, r, src, "file")
             p = tuple(r.params)[:4]
             if p != (1, src.width, src.rate, len(src.s)) or \
@@ -423,8 +442,10 @@ def generate(run, rng):
             run.do({"op": rng.choice(["wav.getSamples", "wav.getFrames"]), "recv": h, "a": [a, b], "grid": g})
         elif r < 0.78:
             run.do({"op": "wav.duration", "recv": h})
-        elif r < 0.82:
+        elif r < 0.80:
             run.do({"op": "wav.new", "recv": h, "out": w.new_handle()})
+        elif r < 0.82:
+            run.do({"op": "Wav.from", "a": [H(h)], "out": w.new_handle()})
         elif r < 0.86:
             smp = _samples(rng, width, rng.randrange(0, 13))
             if rng.random() < 0.5:
@@ -443,7 +464,21 @@ def generate(run, rng):
             run.do({"op": "wav.save", "recv": h, "a": [path], "tag": tag,
                     "handles_before": w.fs.open_handles})
             k = rng.random()
-            if k < 0.45:
+            if k < 0.12:
+                # A -> p, (open p, not looked at yet), same-length B -> p, A -> p again, then read p back:
+                # the file must hold what was saved LAST, and the object opened earlier what was there THEN
+                xh = w.new_handle()
+                run.do({"op": "Wav.open", "a": [path], "out": xh, "defer": True})
+                bh = w.new_handle()
+                run.do({"op": "Wav.like", "a": [{"$b": enc_samples(_samples(rng, width, n), width).hex()}, H(h)],
+                        "out": bh})
+                run.do({"op": "wav.save", "recv": bh, "a": [path], "handles_before": w.fs.open_handles})
+                run.do({"op": "wav.getSamples", "recv": xh, "a": [0.0, n / rate]})
+                if rng.random() < 0.6:
+                    run.do({"op": "wav.save", "recv": h, "a": [path], "handles_before": w.fs.open_handles})
+                run.do({"op": "Wav.open", "a": [path], "out": w.new_handle()})
+                run.stats["probe:save_A_B_A_same_path"] += 1
+            elif k < 0.45:
                 run.do({"op": "Wav.open", "a": [path], "out": w.new_handle()})
             elif k < 0.9:
                 q = w.new_handle()
